@@ -62,10 +62,11 @@ func (m ClientState) CheckHeaderAndUpdateState(
 	if pruneError != nil {
 		return nil, nil, pruneError
 	}
-	// if pruneHeight is set, delete consensus state and metadata
+	// if pruneHeight is set, delete the consensus state. The recent signer of that height is NOT
+	// metadata of the consensus state: it leaves the store when update shifts it out of the window
+	// of the last len(validators)/2 blocks; deleting it here would re-admit its validator too early.
 	if pruneHeight != nil {
 		deleteConsensusState(store, pruneHeight)
-		DeleteSigner(store, clienttypes.NewHeight(pruneHeight.GetRevisionNumber(), pruneHeight.GetRevisionHeight()))
 	}
 
 	newClientState, consensusState, err := update(cdc, store, &m, bscHeader)
